@@ -310,6 +310,10 @@ func getAdditionalImports(protoFile *protogen.File, goPackageForFile map[string]
 func additionalImportsForType(p protogen.GoImportPath, m *protogen.Message, goPackageForFile map[string]string) map[string]string {
 	res := map[string]string{}
 	for _, fld := range m.Fields {
+		if fld.Desc.IsMap() {
+			// the type that may live in another package is the one of the entry's value
+			fld = fld.Message.Fields[1]
+		}
 		switch fld.Desc.Kind() {
 		case protoreflect.MessageKind:
 			if ip := fld.Message.GoIdent.GoImportPath; ip != p {
